@@ -53,6 +53,8 @@ func (*c08) Impl(c Case) []string {
 				return c08Session(atoi(t[2]), atoi(t[3]))
 			case "dupdelete":
 				return c08DupDelete(atoi(t[2]), atoi(t[3]))
+			case "recommit":
+				return c08Recommit(atoi(t[2]), atoi(t[3]))
 			case "mixed":
 				return c08Mixed(atoi(t[2]), atoi(t[3]), uint64(atoi(t[4])), t[5] == "1")
 			case "lin":
@@ -189,6 +191,65 @@ func c08Session(rounds, writers int) string {
 			rd.Close()
 			if sha256Digest(data) != string(d) || desc.Digest != d || desc.Size != int64(len(data)) {
 				return fmt.Sprintf("stored-content-differs-from-digest commit-ok=%v len=%d want=%d", commitErr == nil, len(data), len(prefix))
+			}
+		}
+	}
+	return "ok"
+}
+
+// c08Recommit: several handles on one upload session commit it (with the right digest) at the same
+// time, while a hasher-sized blob keeps the registry lock contended; then the blob is deleted and
+// the session committed once more. Whenever a Commit reports success, the blob is there at that
+// moment (nothing deletes it in the first phase; in the second the delete has already returned).
+func c08Recommit(rounds, committers int) string {
+	ctx := context.Background()
+	for round := 0; round < rounds; round++ {
+		r := ocimem.New()
+		w0, err := r.PushBlobChunked(ctx, "a", 0)
+		if err != nil {
+			return "start failed"
+		}
+		id := w0.ID()
+		content := bytes.Repeat([]byte("recommit-"+strconv.Itoa(round)), 200)
+		if _, err := w0.Write(content); err != nil {
+			return "write failed"
+		}
+		dg := ociregistry.Digest(sha256Digest(content))
+		var wg sync.WaitGroup
+		start := make(chan struct{})
+		var missing atomic.Int64
+		for i := 0; i < committers; i++ {
+			wg.Add(1)
+			go func() {
+				defer wg.Done()
+				w, err := r.PushBlobChunkedResume(ctx, "a", id, -1, 0)
+				if err != nil {
+					return
+				}
+				<-start
+				if _, err := w.Commit(dg); err == nil {
+					if _, err := r.ResolveBlob(ctx, "a", dg); err != nil {
+						missing.Add(1)
+					}
+				}
+			}()
+		}
+		close(start)
+		wg.Wait()
+		if missing.Load() > 0 {
+			return fmt.Sprintf("not-linearizable: %d commits reported success while the blob could not be resolved", missing.Load())
+		}
+		// commit, delete, commit again on the same session
+		if err := r.DeleteBlob(ctx, "a", dg); err != nil {
+			continue // nobody managed to commit: nothing more to see in this round
+		}
+		w, err := r.PushBlobChunkedResume(ctx, "a", id, -1, 0)
+		if err != nil {
+			continue
+		}
+		if _, err := w.Commit(dg); err == nil {
+			if _, err := r.ResolveBlob(ctx, "a", dg); err != nil {
+				return "not-linearizable: a commit after the blob was deleted reported success but stored nothing"
 			}
 		}
 	}
@@ -361,6 +422,9 @@ func (*c08) Gen(rng *RNG, tier string) []Case {
 		cases = append(cases, Case{Tag: "session", Lines: []string{fmt.Sprintf("conc session %d %d", sr, w)}})
 	}
 	cases = append(cases, Case{Tag: "dupdelete", Lines: []string{fmt.Sprintf("conc dupdelete %d 4", sr*3)}})
+	for _, w := range []int{1, 2, 4} {
+		cases = append(cases, Case{Tag: "recommit", Lines: []string{fmt.Sprintf("conc recommit %d %d", sr, w)}})
+	}
 	nm := 12
 	if tier == "thorough" {
 		nm = 100
@@ -487,7 +551,7 @@ func (*c08) Oracle(c Case, impl []string) []Failure {
 		fs = append(fs, Failure{Class: class, Oracle: "concurrent_" + t[1], Index: i, Expected: "ok", Observed: got, Detail: lastPanic})
 	}
 	// data races reported by the runtime during this process
-	if len(c.Lines) > 0 && c.Tag == "mixed" || c.Tag == "session" || c.Tag == "tagswap" {
+	if len(c.Lines) > 0 && c.Tag == "mixed" || c.Tag == "session" || c.Tag == "tagswap" || c.Tag == "recommit" {
 		fs = append(fs, c08RaceReports(c)...)
 	}
 	return fs
